@@ -344,8 +344,9 @@ impl AssemblyCode {
                 }
             }
 
-            // Is the instruction after `second` a conditional branch? An instruction whose flags
-            // such a branch tests can't be dropped
+            // Is the instruction after `second` a conditional branch (or a PHP, that saves the
+            // flags for a later branch)? An instruction whose flags such a branch tests can't
+            // be dropped
             let mut followed_by_branch = false;
             loop {
                 match iter.peek() {
@@ -358,6 +359,7 @@ impl AssemblyCode {
                                 | AsmMnemonic::BCS
                                 | AsmMnemonic::BMI
                                 | AsmMnemonic::BPL
+                                | AsmMnemonic::PHP
                         );
                         break;
                     }
@@ -760,6 +762,8 @@ impl AssemblyCode {
                             }
                         }
                         AsmMnemonic::PLA | AsmMnemonic::PHA => accumulator = None,
+                        // The flags are those that PHP saved
+                        AsmMnemonic::PLP => flags = FlagsState::Unknown,
                         AsmMnemonic::JSR | AsmMnemonic::JMP => {
                             accumulator = None;
                             x_register = None;
